@@ -16,7 +16,8 @@ TECHNIQUE = ("round trip through an independent reference quoter + conservation 
 RULE = ("round trip: lists of 0-6 arguments of 0-10 characters over {a, b, e-acute, "
         "space, tab, \", ', backslash}, single quotes enabled or not, each "
         "argument wrapped by the reference quoter in \" (or ' when enabled; "
-        "letter-only arguments sometimes bare), joined by 1-3 spaces with optional "
+        "letter/backslash-only arguments sometimes bare, arguments without white "
+        "space sometimes unquoted with backslash-escaped quote characters), joined by 1-3 spaces with optional "
         "leading/trailing spaces. arbitrary: every string over {a, b, space, \", ', "
         "backslash} of length <= 6 (quick) / 8 (thorough) plus generated ones up "
         "to 14 characters. enum-args: every single argument of length <= 5 (6) and "
@@ -69,6 +70,31 @@ def quote(arg, qc, qchars):
             out.append(BS * nb + c)
         i += 1
     out.append(qc)
+    return "".join(out)
+
+
+def escape_bare(arg, qchars):
+    """The other documented way to protect a quote character: leave the word
+    unquoted and put a backslash before each quote character (a run of n
+    backslashes before it becomes 2n+1); all other backslashes stay as they
+    are. Only for non-empty words without white space."""
+    out = []
+    i = 0
+    n = len(arg)
+    while i < n:
+        nb = 0
+        while i < n and arg[i] == BS:
+            nb += 1
+            i += 1
+        if i == n:
+            out.append(BS * nb)
+            break
+        c = arg[i]
+        if c in qchars:
+            out.append(BS * (2 * nb + 1) + c)
+        else:
+            out.append(BS * nb + c)
+        i += 1
     return "".join(out)
 
 
@@ -128,7 +154,7 @@ def subject_tokens(line, sq):
 
 
 def law_roundtrip(args, sq, qcs=None, seps=None, lead="", trail="",
-                  bare=None):
+                  bare=None, esc=None):
     qchars = qchars_of(sq)
     pieces = []
     expect_q = []
@@ -139,7 +165,10 @@ def law_roundtrip(args, sq, qcs=None, seps=None, lead="", trail="",
         # a word without quote characters or white space needs no quoting; a
         # backslash that is not followed by a quote character is literal, also
         # at the end of an unquoted word
-        if bare and bare[i] and a and all(ch in "abé\\" for ch in a):
+        if esc and esc[i] and a and not any(ch.isspace() for ch in a):
+            pieces.append(escape_bare(a, qchars))
+            expect_q.append(False)
+        elif bare and bare[i] and a and all(ch in "abé\\" for ch in a):
             pieces.append(a)
             expect_q.append(False)
         else:
@@ -201,7 +230,7 @@ def run_roundtrip(case, env):
     sq = case["sq"]
     x = _expand(case)
     law_roundtrip(args, sq, x["qcs"], x["seps"], case["lead"], case["trail"],
-                  x["bare"])
+                  x["bare"], x["esc"])
     qchars = qchars_of(sq)
     bs = any(a != "" and interesting_arg(a, qchars) for a in args)
     empty = any(a == "" for a in args)
@@ -288,6 +317,13 @@ def run_arg_block(case, env):
                 n += 1
                 if any(interesting_arg(a, qchars) for a in args):
                     nt += 1
+            # unquoted words with backslash-escaped quote characters (where
+            # a word allows it), alone and next to a quoted neighbour
+            for esc in ([True] * len(args), [True, False], [False, True]):
+                if len(esc) != len(args):
+                    continue
+                law_roundtrip(args, sq, ["\""] * len(args), esc=esc)
+                n += 1
 
     if case["what"] == "single":
         pre = case["prefix"]
@@ -318,6 +354,7 @@ def _expand(case):
         "qcs": ["'" if (qm >> i) & 1 else "\"" for i in range(n)],
         "seps": [_SEPS[(sm >> (2 * i)) & 3] for i in range(max(0, n - 1))],
         "bare": [bool((bm >> i) & 1) for i in range(n)],
+        "esc": [bool((case.get("escmask", 0) >> i) & 1) for i in range(n)],
     }
 
 
@@ -327,6 +364,7 @@ gen_roundtrip = st.fixed_dictionaries({
     "qmask": st.integers(0, 63),
     "sepcode": st.integers(0, 1023),
     "baremask": st.integers(0, 63),
+    "escmask": st.sampled_from([0, 0, 1, 2, 5, 21, 42, 63]),
     "lead": st.sampled_from(["", "", " ", "  "]),
     "trail": st.sampled_from(["", "", " ", "  "]),
 })
